@@ -30,6 +30,31 @@ def check(run):
         if len(run.samples) < 2:
             run.sample({"project": c["project"], "options": c["options"], "sched_prefix": c["sched"][:20],
                         "outcome": r.get("outcome"), "graph": r.get("graph")})
+    # directed family: --force-disabled with NESTED suites -- a sub-suite whose tests are all disabled, a suite-scoped fixture (or
+    # a setup_suite hook) needed only by a disabled test of a sub-suite: everything is scheduled, set up and run as if enabled
+    nohooks = {"setup_suite": None, "teardown_suite": None, "setup_test": None, "teardown_test": None}
+
+    def tst(name, rank, disabled, args, body):
+        return {"name": name, "disabled": disabled, "rank": rank, "deps": [], "args": args, "params": {}, "body": body}
+    fcases = []
+    for k, (nthreads, hook, all_disabled) in enumerate([(1, False, False), (2, False, True), (1, True, True), (3, True, False)]):
+        fx = [{"name": "f5", "scope": "suite", "params": [], "per_thread": False, "generator": True,
+               "setup": [["mark", 1]], "teardown": [["mark", 2]]}]
+        sub_tests = [tst("t8", 0, True, ["f5"], [["log", 1, 1], ["use", "f5"]])] + \
+            ([] if all_disabled else [tst("t9", 1, False, [], [["log", 1, 2]])])
+        sub = {"name": "s7", "disabled": False, "rank": 0, "hooks": dict(nohooks, setup_suite={"args": [], "script": [["mark", 3]]} if hook else None),
+               "injected": [], "tests": sub_tests, "subs": []}
+        top = {"name": "s6", "disabled": False, "rank": 0, "hooks": nohooks, "injected": [],
+               "tests": [tst("t10", 0, False, [], [["log", 1, 3]])], "subs": [sub]}
+        fcases.append({"id": "fdn%d" % k, "project": {"fixtures": fx, "suites": [top]}, "sched": projgen.gen_sched(run.rng),
+                       "options": {"nb_threads": nthreads, "stop_on_failure": False, "force_disabled": True}})
+    fres = engine.cosim(run, fcases)
+    for c in fcases:
+        r = fres.get(c["id"]) or {"outcome": ["hang", "no result"]}
+        run.evaluations += 1
+        run.count("force_disabled_nested_suite_runs")
+        for sig, text in runoracle.c01_oracle(c, r):
+            run.violation(sig, text, {"case": c, "outcome": r.get("outcome"), "traceback": r.get("traceback")})
     # user code raising a BaseException (sys.exit()): the run must still terminate (F15)
     base = engine.gen_cases(run, 25 if run.tier == "quick" else 400,
                             profile={"raise_kinds": ["Base", "Base", "Exception"], "p_fail": 0.3, "p_raise_in_fail": 0.8},
